@@ -229,7 +229,7 @@ func (d *Decoder) readTypedList(tag byte) (interface{}, error) {
 	holder := d.addDecoderRef(aryValue)
 
 	for j := 0; j < length || isVariableArr; j++ {
-		item, err := d.ReadData()
+		item, err := d.readData()
 		if err != nil {
 			if err == io.EOF && isVariableArr {
 				break
@@ -237,13 +237,12 @@ func (d *Decoder) readTypedList(tag byte) (interface{}, error) {
 			return nil, newCodecError("readTypedList", err)
 		}
 
-		if item == nil {
-			break
-		}
-
+		// a null element keeps the zero value of the element type
 		v := EnsureRawValue(item)
 		if isVariableArr {
-			aryValue = reflect.Append(aryValue, v)
+			elem := reflect.New(aryType.Elem()).Elem()
+			SetValue(elem, v)
+			aryValue = reflect.Append(aryValue, elem)
 			holder.change(aryValue)
 		} else {
 			SetValue(aryValue.Index(j), v)
@@ -288,16 +287,20 @@ func (d *Decoder) readUntypedList(tag byte) (interface{}, error) {
 	holder := d.addDecoderRef(aryValue)
 
 	for j := 0; j < length || isVariableArr; j++ {
-		it, err := d.ReadData()
+		it, err := d.readData()
 		if err != nil {
 			if err == io.EOF && isVariableArr {
-				continue
+				break
 			}
 			return nil, newCodecError("readUntypedList", err)
 		}
 
 		if isVariableArr {
-			aryValue = reflect.Append(aryValue, EnsureRawValue(it))
+			elem := reflect.New(aryValue.Type().Elem()).Elem()
+			if v := EnsureRawValue(it); v.IsValid() {
+				elem.Set(v)
+			}
+			aryValue = reflect.Append(aryValue, elem)
 			holder.change(aryValue)
 		} else {
 			ary[j], _ = EnsureInterface(it, nil)
